@@ -713,6 +713,10 @@ class HyASTCompiler:
     @builds_model(Dict)
     def compile_dict(self, m):
         keyvalues, ret, _ = self._compile_collect(m, dict_display=True)
+        if len(keyvalues) % 2 or None in keyvalues[1::2]:
+            raise self._syntax_error(
+                m, "a dictionary literal needs a value for each key"
+            )
         return ret + asty.Dict(m, keys=keyvalues[::2], values=keyvalues[1::2])
 
     @builds_model(Tuple)
